@@ -144,13 +144,13 @@ impl Property for C12 {
     }
     fn cases(&self, tier: Tier) -> u64 {
         match tier {
-            Tier::Quick => widths(tier) * OFFSETS + 4_000,
+            Tier::Quick => widths(tier) * OFFSETS + 100_000,
             Tier::Thorough => widths(tier) * OFFSETS + 15_000_000,
         }
     }
     fn min_nontrivial(&self, tier: Tier) -> u64 {
         match tier {
-            Tier::Quick => 2_500,
+            Tier::Quick => 20_000,
             Tier::Thorough => 1_000_000,
         }
     }
